@@ -256,6 +256,12 @@ func main() {
 		{"elongate(c.4,(-1.5,0))@0,2.2", at(sdf.Elongate2D(circle(0.4), v2.Vec{X: -1.5}), 0, 2.2)},
 		{"elongate(c.3,(.5,-1))@-2,-.5", at(sdf.Elongate2D(circle(0.3), v2.Vec{X: 0.5, Y: -1}), -2, -0.5)},
 		{"offset(b1x.6,.2)@2,1.5", at(sdf.Offset2D(mustBox(1, 0.6, 0), 0.2), 2, 1.5)},
+		{"scale1.5(c.4@1,.6)", sdf.ScaleUniform2D(at(circle(0.4), 1, 0.6), 1.5)},
+		{"scale.5(b2x1@-3,2)", sdf.ScaleUniform2D(at(mustBox(2, 1, 0), -3, 2), 0.5)},
+		{"union(c.3@0,0, stroke2@2,1)", sdf.Union2D(circle(0.3), at(sdf.Line2D(2, 0), 2, 1))},
+		{"union(stroke1.5@-1,-2.5, c.2@-2.5,0)", sdf.Union2D(at(sdf.Line2D(1.5, 0), -1, -2.5), at(circle(0.2), -2.5, 0))},
+		{"center(b1x.5@2,2)", sdf.Center2D(at(mustBox(1, 0.5, 0), 2, 2))},
+		{"centerscale(c.4@1,1,1.5)", sdf.CenterAndScale2D(at(circle(0.4), 1, 1), 1.5)},
 	}
 	// the pruning argument itself, operand by operand: a value is never smaller than the distance to the operand's
 	// own bounding box (for these exact operands: the solid lies inside its box), at every point of a 1/16 lattice
